@@ -569,7 +569,7 @@ class _Idioms(ast.NodeTransformer):
             return res
         out = []
         for st in stmts:
-            if isinstance(st, ast.For) and not st.orelse and isinstance(st.iter, (ast.Tuple, ast.List)) and any(isinstance(n, ast.Continue) for b in st.body for n in ast.walk(b)) \
+            if isinstance(st, (ast.For, ast.While)) and not st.orelse and any(isinstance(n, ast.Continue) for b in st.body for n in ast.walk(b)) \
                     and not any(isinstance(n, (ast.For, ast.AsyncFor, ast.While)) for b in st.body for n in ast.walk(b)):
                 nb_ = no_continue(list(st.body))
                 if not any(isinstance(n, ast.Continue) for b in nb_ for n in ast.walk(b)):
